@@ -200,7 +200,10 @@ class Interp:
         if isinstance(st, ast.For):
             it = self.ev(st.iter, env)
             broke = False
-            for v in list(it):
+            # containers are iterated over a snapshot; anything else (itertools.count(), a generator) lazily, bounded by
+            # the interpreter's step budget
+            for v in (list(it) if isinstance(it, (list, tuple, dict, set, frozenset, str, range)) else it):
+                self.tick()
                 self.assign(st.target, v, env)
                 try:
                     self.block(st.body, env)
@@ -549,7 +552,9 @@ class Interp:
                     out.append(self.ev(e.elt, env2))
                 return
             g = e.generators[i]
-            for v in list(self.ev(g.iter, env2)):
+            src = self.ev(g.iter, env2)
+            for v in (list(src) if isinstance(src, (list, tuple, dict, set, frozenset, str, range)) else src):
+                self.tick()
                 env3 = dict(env2)
                 self.assign(g.target, v, env3)
                 if all(self.truth(self.ev(c, env3)) for c in g.ifs):
